@@ -231,7 +231,10 @@ theorem parse_selectHead (columns tn : Py.Str) (hc : colsPlain columns = true) (
   simp only [show isKw "select" kSELECT = true from by decide, if_true]
   have := parseSelect_ok (colsAst columns) tn [] (tokenize_columns columns hc).2.1 ht (by simp)
   simp only [if_true] at this
-  exact this
+  show (match parseSelect (colToks (colsAst columns) ++ [Tok.word kFROM, Tok.word tn]) with
+    | Except.ok st => Except.ok st
+    | Except.error _ => parseJoin (colToks (colsAst columns) ++ [Tok.word kFROM, Tok.word tn])) = _
+  rw [this]
 
 theorem parse_selectText (columns tn : Py.Str) (ss : List CondSpec) (hc : colsPlain columns = true) (ht : isName tn = true)
     (hne : ss ≠ []) (hs : ∀ s ∈ ss, isName s.name = true) :
@@ -254,6 +257,6 @@ theorem parse_selectText (columns tn : Py.Str) (ss : List CondSpec) (hc : colsPl
   have := parseSelect_ok (colsAst columns) tn (ss.map CondSpec.cond) (tokenize_columns columns hc).2.1 ht
     (by intro c hc'; obtain ⟨s, hs1, rfl⟩ := List.mem_map.1 hc'; exact hs s hs1)
   simp only [hne', if_false] at this
-  exact this
+  rw [this]
 
 end SqlProofs
